@@ -616,12 +616,63 @@ def _r09h(rep):
                      f"for a generic rotation the flag of the axis pair ({'abc'[i]}, {'abc'[j]}) is set under '{core.norm(str(got[k]), 120)}', which is not '|r[:, {i}]| == e_{j} or |r[:, {j}]| == e_{i}': an exchange with a sign (a -> -b, as in C2, Cm, Amm2 settings) is not recognised, the mesh is reduced by rotations it is not invariant under, and the orbits and weights are wrong", line=fn.lineno)
 
 
+
+def _r09j(rep):
+    """Normalisation by the weights is global: sum over all irreducible q of w_q f_q divided by the sum of all w_q."""
+    rep.rule("R09j", "the weighted mean over the irreducible q-points is normalised by the total weight: no consumer normalises with the weights of a block / slice of the q-points (np.average(..., weights=w[a:b]), division by sum(w[a:b])) and recombines the partial means by block size, which is exact only for equal weights (mesh symmetry off)", 3)
+    n_inst = 0
+    for rel in ("phonopy/phonon/dos.py", "phonopy/phonon/moment.py", "phonopy/phonon/thermal_properties.py", "phonopy/phonon/thermal_displacement.py"):
+        tree = core.parse(rel)
+        for fn in [x for x in ast.walk(tree) if isinstance(x, ast.FunctionDef)]:
+            if "_weights" not in core.src(fn) and "weights" not in {a.arg for a in fn.args.args}:
+                continue
+            partial = set()   # locals bound to a slice / block of the weights
+            changed = True
+            while changed:
+                changed = False
+                for st in ast.walk(fn):
+                    if isinstance(st, ast.Assign) and len(st.targets) == 1 and isinstance(st.targets[0], ast.Name) and st.targets[0].id not in partial:
+                        v = st.value
+                        is_part = isinstance(v, ast.Subscript) and (("weights" in core.src(v.value)) or (isinstance(v.value, ast.Name) and v.value.id in partial)) and any(isinstance(x, ast.Slice) and (x.lower is not None or x.upper is not None) for x in ([v.slice] if not isinstance(v.slice, ast.Tuple) else v.slice.elts))
+                        if is_part:
+                            partial.add(st.targets[0].id)
+                            changed = True
+
+            def is_partial(e):
+                if isinstance(e, ast.Name):
+                    return e.id in partial
+                if isinstance(e, ast.Subscript) and "weights" in core.src(e.value):
+                    return any(isinstance(x, ast.Slice) and (x.lower is not None or x.upper is not None) for x in ([e.slice] if not isinstance(e.slice, ast.Tuple) else e.slice.elts))
+                return False
+
+            sites = []
+            for c in ast.walk(fn):
+                if isinstance(c, ast.Call) and core.src(c.func) in ("np.average",):
+                    w = [k.value for k in c.keywords if k.arg == "weights"]
+                    if w:
+                        sites.append((c, is_partial(w[0]), f"np.average(..., weights={core.src(w[0])})"))
+                if isinstance(c, ast.BinOp) and isinstance(c.op, ast.Div):
+                    den = c.right
+                    if isinstance(den, ast.Call) and core.src(den.func) in ("np.sum", "sum", "float") and den.args and "weights" in core.src(den.args[0]) or (isinstance(den, ast.Call) and isinstance(den.func, ast.Attribute) and den.func.attr == "sum" and "weights" in core.src(den.func.value)):
+                        arg = den.args[0] if den.args else den.func.value
+                        while isinstance(arg, ast.Call) and arg.args:
+                            arg = arg.args[0]
+                        sites.append((c, is_partial(arg), f"... / {core.src(den)}"))
+            for node, bad, text in sites:
+                n_inst += 1
+                rep.instance("R09j", rel, core.qualname_of(fn), text, not bad,
+                             f"'{text}' normalises with the weights of a block of the q-points only: partial weighted means recombined by block size give the full-mesh result only when all weights are equal, so the quantity on the symmetry-reduced mesh differs from the one on the full mesh (the integral still comes out right)", line=node.lineno)
+    if n_inst < 3:
+        raise AnalysisError(f"R09j: only {n_inst} weight normalisation sites found")
+
+
 _run_main = run
 
 
 def run(rep: core.Report):
     _run_main(rep)
     _r09h(rep)
+    _r09j(rep)
     from rules import shared_bcast
 
     shared_bcast.run(rep, "R09i", [r for r in ["phonopy/structure/grid_points.py", "phonopy/phonon/moment.py", "phonopy/phonon/dos.py", "phonopy/phonon/thermal_properties.py"] if (core.REPO / r).is_file()])
